@@ -10,8 +10,10 @@ for p in sys.argv[1:]:
     for k, v in ev["coverage"]["rule_instance_counts"].items():
         if k == "FLOOR" or ".delegated" in k or ".untainted" in k or k in ("R-DIV", "R-UNIT"):
             continue  # census counts that legitimately shrink when code gets safer
-        if k in ("R-PANIC", "R-STRSLICE", "R-ARITH", "R-REENTRANT", "R-WPROP.fmt", "R-FREEZE", "R-CMPTOTAL"):
-            v = max(1, v // 2)  # census: guard only against the rule going (nearly) vacuous
+        # A floor only guards against a rule going (nearly) vacuous — a renamed anchor, a pattern that stopped matching.
+        # Instance counts legitimately shrink under behaviour-preserving edits (two writes merged into one, a loop replaced
+        # by an iterator adaptor, duplicated code folded into a helper), so every floor is half the reviewed count.
+        v = max(1, v // 2)
         c[k] = v
     fl[p] = c
 json.dump(fl, open(V + "/ledger/floors.json", "w"), indent=1, sort_keys=True)
